@@ -436,8 +436,27 @@ def run_dispatcher(case):
         selvals = list(range(n))
     sd = None
     if not trivial:
-        sd = bench.add(SelDriver(disp.sel, selvals, rng, slaves, p=0.2))
-    sb = bench.add(Scoreboard([drv], [im], oms, lambda: len(toks), coop_from=hostile + 2, stall_bound=40))
+        # selector values that designate no slave (binary: beyond the last slave; one-hot: no bit or several bits): the documented
+        # default drains such packets (master.ready = 1), so tokens keep moving and nothing reaches a slave
+        nosel = [x for x in range(1 << len(disp.sel)) if x not in selvals]
+        # (the selector is also held while a beat is stalled at the master: a producer that derives it from the packet holds it with the token)
+        sd = bench.add(SelDriver(disp.sel, selvals * 3 + nosel[:3], rng, list(slaves) + [master], p=0.2))
+
+    def expected():
+        dest, cnt = "unset", 0
+        for e in im.log:
+            if trivial:
+                cnt += 1
+                continue
+            if e[0] >= len(sd.hist):
+                break
+            if dest == "unset":
+                dest = sd.hist[e[0]] in selvals
+            cnt += int(dest)
+            if e[2]:
+                dest = "unset"
+        return cnt + (len(toks) - len(im.log))        # beats not yet accepted are still expected (their destination is not known yet)
+    sb = bench.add(Scoreboard([drv], [im], oms, expected, coop_from=hostile + 2, stall_bound=40))
     ok = bench.run()
     data = None
     outl = [{e[0]: e for e in m.log} for m in oms]
@@ -471,7 +490,8 @@ def run_dispatcher(case):
     nout = sum(len(m.log) for m in oms)
     if data is None and nout > len(im.log):
         data = {"field": "extra-beat"}
-    return _finish(bench, ok, oms, sb, {"data": data, "missing": len(im.log) - nout if data is None and not sb.stalled else 0,
+    dropped = len(im.log) - (expected() - (len(toks) - len(im.log)))
+    return _finish(bench, ok, oms, sb, {"data": data, "missing": (len(toks) - dropped - nout) if data is None else 0, "dropped_unmapped": dropped,
                                         "sched": [vk, "-"], "accepted": len(im.log), "states": 0,
                                         "sel_changes": sd.changes if sd else 0, "dests": len(dests),
                                         "packets": sum(1 for e in im.log if e[2])})
@@ -490,6 +510,8 @@ def judge(col, case, r, prop):
         col.ev("release_checks", r["release_checks"])
     if "sel_changes" in r:
         col.ev("selector_changes", r["sel_changes"])
+    if "dropped_unmapped" in r:
+        col.ev("dispatcher_beats_with_selector_designating_no_slave", r["dropped_unmapped"])
     if "hdr_kind" in r:
         col.cov("header_kinds", "%s/dw%d/%s" % (el, case["cfg"]["dw"], r["hdr_kind"]))
         col.cov("header_defs", h(r["hd"]))
